@@ -27,6 +27,7 @@ MODULES = [
     (r"^c0[67]_tls_", "transport::tls::verif_tls"),
     (r"^c0[67]_junos_local_", "transport::junos_local::verif_junos_local"),
     (r"^c0[67]_ssh_|^c20_password", "transport::ssh::verif_ssh"),
+    (r"^c10_url_text", "message::rpc::operation::verif_ops"),
     (r"^c09_|^c05_|^c18_|^c12_negotiation|^c10_commit|^c10_url|^c10_junos", "session::verif_session"),
     (r"^c12_server_hello|^c12_capabilit|^c13_capabilit|^c13_session_id", "message::hello::verif_hello"),
     (r"^c08_load_|^c10_load_configuration", "message::rpc::operation::junos::load_configuration::verif_load"),
@@ -467,14 +468,21 @@ CHECKS["C10"] = {
     "crates": ["netconf"],
     "explanation": "LoadConfiguration<Config<&str, Text|Json, Merge>>::write_xml is executed with a symbolic 2-byte payload over {<, &, \", ], a}; "
                    "the writer model's structured log must show the payload as an escaped text node carrying exactly the caller's bytes, and "
-                   "no raw access to the sink.",
+                   "no raw access to the sink.  Url::write_xml (the <url> source / target of edit-config, copy-config, delete-config, validate) is "
+                   "executed on three URLs - plain query, '&' in the query, quotes and '&'; the choice is the solver's - and the log must show the "
+                   "URL as one escaped text node with exactly its bytes.",
     "assumptions": ["API-use level: that quick-xml's escape/unescape are inverse is quick-xml's contract",
-                    "covered: text and JSON configuration payloads of <load-configuration>; NOT covered: commit tokens, ephemeral instance name, log message, "
-                    "XPath select (harnesses c10_commit_tokens / c10_junos_texts_and_xpath run out of memory in the solver and are kept as experimental), URLs, the "
+                    "Url values are built from their private field with iri-string's validator stubbed to accept (the three URLs are valid RFC 3986 URIs); "
+                    "Url::try_new (scheme check against :url, C09's subject) is not run - its capability scan over heap strings does not fit CBMC "
+                    "(c10_url_plain / c10_url_with_metacharacters through the builder API: 7 GB / 10 min, kept as experimental); URL *texts* are concrete, not arbitrary",
+                    "covered: text and JSON configuration payloads of <load-configuration>, <url> texts; NOT covered: commit tokens, ephemeral instance name, log message, "
+                    "XPath select (harnesses c10_commit_tokens / c10_junos_texts_and_xpath run out of memory in the solver and are kept as experimental), the url= attribute of load-configuration, the "
                     "agent's policy names / comments, and the delimiter-uniqueness / single-document part of C10 (needs the emitted bytes)"],
     "harnesses": [
         harness("c10_load_configuration_text_payload_is_escaped", functions=["junos::load_configuration::LoadConfiguration::write_xml", "Config::write_element", "ConfigData<Text|Json>::write_data"],
                 bounds="payload of 2 bytes over {<,&,\",],a}; text and json formats", loops={r"Inline.*from_slice|write_escaped": 45}, mem_gb=30),
+        harness("c10_url_text_is_escaped", functions=["Url::write_xml"], stubbing=True,
+                bounds="3 concrete URLs (plain query, '&' in the query, quotes and '&'), the choice symbolic; Url built from its field (Url::try_new not run), iri-string validator stubbed"),
         harness("c10_url_plain", functions=["Url::try_new", "delete_config::Builder::url", "DeleteConfig::write_xml", "Url::write_xml"],
                 bounds="concrete URL http://h/c", stubbing=True, tiers=["experimental"]),
         harness("c10_url_with_metacharacters", functions=["Url::try_new", "delete_config::Builder::url", "DeleteConfig::write_xml", "Url::write_xml"],
